@@ -27,6 +27,7 @@ pub fn generate(stream: &str, seed: u64, n: usize, emit: &mut dyn FnMut(String))
 		"skip" => de::generate_skip(seed, n, emit),
 		"de-alloc" => de::generate_alloc(seed, n, emit),
 		"ocfw" | "ocfw-sink" | "ocfw-big" => ocf::generate_w(stream, seed, n, emit),
+		"ocfx" => ocf::generate_x(seed, n, emit),
 		"ocfr" | "ocfr-null" | "ocfr-big" | "ocfr-damage" | "ocfd" => ocf::generate_r(stream, seed, n, emit),
 		s if s.starts_with("de") => de::generate(stream, seed, n, emit),
 		_ => panic!("unknown stream {stream}"),
@@ -53,6 +54,7 @@ pub fn run_line(line: &str) -> String {
 		"dealloc" => de::run_alloc(line),
 		"ocfw" => ocf::run_w(line),
 		"ocfr" | "ocfd" => ocf::run_r(line),
+		"ocfx" => ocf::run_x(line),
 		_ => Err(format!("unknown stream {cmd}")),
 	});
 	match r {
